@@ -1,7 +1,55 @@
 (** C09 - Server and workers survive every message order and fault (no reachable panic). *)
-From HQ Require Import Base.Prelude Cluster.Types Cluster.Core Cluster.Reactor Cluster.Worker Cluster.Server Cluster.Sys Cluster.Monitors Cluster.ProofsJob Cluster.ProofsCore Cluster.ProofsMore Cluster.RejHyp Cluster.BijFinal Cluster.InvProcsDef Cluster.InvBundle Cluster.NoPanicC5 Cluster.NoPanicC6 Cluster.NoPanicC7 Cluster.NoPanicL0 Cluster.NoPanicL4 Cluster.NoPanicS7 Cluster.NoPanicS8 Cluster.NoPanicAll.
+From HQ Require Import Base.Prelude Cluster.Types Cluster.Core Cluster.Reactor Cluster.Worker Cluster.Server Cluster.Sys Cluster.Monitors Cluster.ProofsJob Cluster.ProofsCore Cluster.ProofsMore Cluster.RejHyp Cluster.BijFinal Cluster.InvProcsDef Cluster.InvBundle Cluster.NoPanicC5 Cluster.NoPanicC6 Cluster.NoPanicC7 Cluster.NoPanicL0 Cluster.NoPanicL4 Cluster.NoPanicS7 Cluster.NoPanicS8 Cluster.NoPanicAll Cluster.RetractFree Cluster.BijCore Cluster.BijReact Cluster.NoPanicU0 Cluster.NoPanicU1 Cluster.NoPanicU20 Cluster.NoPanicU26 Cluster.NoPanicU29 Cluster.NoFresh Cluster.NoPanicFull.
 From Coq Require Import ZArith.
 Local Open Scope N_scope.
+
+(** NO REACHABLE PANIC.  For every history of operations of the system model - client requests,
+    worker connections and losses, deliveries of messages in both directions in any order, scheduler
+    rounds, task ends, launch failures, timers - that satisfies the executable well-formedness
+    [run_hyp] (NoPanicFull.v: multi-node classes carry no resource amounts; every scheduler answer
+    satisfies the solver contract [sol_ok], uses variant 0, places classes in their own mode and puts
+    no multi-node task on a worker a task is being retracted from; explicit ids of an array submit
+    are distinct) and [op_wf], the run is never a [Panic].  Nothing is assumed about messages in
+    flight: that is the protocol invariant PROTO, proved (NoPanicU*.v).  Every conjunct of
+    [run_hyp] is monitored on every step of every explored history of the real implementation. *)
+Theorem C09_no_reachable_panic : forall ops reserve maxfill,
+  Forall op_wf ops -> run_hyp (init_sys reserve maxfill) ops = true -> is_panic (run (init_sys reserve maxfill) ops) = false.
+Proof. exact no_reachable_panic. Qed.
+
+(** One more operation from any reachable state. *)
+Theorem C09_step_never_panics : forall pre reserve maxfill s outs o,
+  Forall op_wf pre -> run_hyp (init_sys reserve maxfill) pre = true -> run (init_sys reserve maxfill) pre = Ok (s, outs) ->
+  hyp s o = true -> is_panic (step s o) = false.
+Proof. exact step_never_panics. Qed.
+
+(** The joint server / worker protocol invariant holds in every reachable state, and with it the
+    hypothesis [run_fresh] of the core invariants is derived from the static [ops_ok]. *)
+Theorem C09_protocol_invariant : forall ops reserve maxfill s outs,
+  Forall op_wf ops -> ops_ok (init_sys reserve maxfill) ops = true -> run (init_sys reserve maxfill) ops = Ok (s, outs) ->
+  proto_ok s = true /\ run_fresh (init_sys reserve maxfill) ops = true.
+Proof.
+  intros ops reserve maxfill s outs Hwf Hok H.
+  destruct (reachable_PROTO ops reserve maxfill s outs Hwf Hok H) as [HP Hf].
+  split; [|exact Hf]. apply NoPanicU1.PROTO_proto_ok; [|exact HP].
+  apply BijCore.CS_sorted. exact (BijReact.cb_s _ (inv_cb _ (reachable_INV _ _ _ _ _ Hwf Hf H))).
+Qed.
+
+(** A worker's message never panics the server; a worker process never panics. *)
+Theorem C09_worker_messages_never_panic : forall ops reserve maxfill s outs w,
+  Forall op_wf ops -> ops_ok (init_sys reserve maxfill) ops = true ->
+  ops_sol_ok (init_sys reserve maxfill) ops = true -> ops_retract_ok (init_sys reserve maxfill) ops = true ->
+  run (init_sys reserve maxfill) ops = Ok (s, outs) -> is_panic (step s (OpDUp w)) = false.
+Proof. exact worker_messages_never_panic. Qed.
+Theorem C09_worker_process_never_panics : forall ops reserve maxfill s outs o,
+  Forall op_wf ops -> ops_ok (init_sys reserve maxfill) ops = true -> run (init_sys reserve maxfill) ops = Ok (s, outs) ->
+  NoPanicU5.worker_op o -> is_panic (step s o) = false.
+Proof. exact worker_process_never_panics. Qed.
+
+(** Non-vacuity, and the history of finding F28 (a reachable panic of the real server, found by the
+    proof attempt; all other hypotheses hold on it) is excluded by exactly the clause its repair added. *)
+Definition C09_no_panic_hypotheses_satisfiable := no_panic_hypotheses_satisfiable.
+Definition C09_f28_history_excluded := f28_history_excluded.
+Definition C09_f28_panic_reachable_without_repair := NoPanicU21.panic_102_reachable.
 
 (** In EVERY reachable state of the system model (any history of client requests, worker
     connections and losses, deliveries in any order, scheduler rounds with any well-formed answer,
@@ -21,7 +69,7 @@ Proof. exact server_never_panics. Qed.
     [Disabled] either) - "every such input is either handled or rejected with an error". *)
 Theorem C09_client_requests_total : forall ops reserve maxfill s outs o,
   Forall op_wf ops -> run_fresh (init_sys reserve maxfill) ops = true -> run (init_sys reserve maxfill) ops = Ok (s, outs) ->
-  client_op o -> op_ok s o -> exists r, step s o = Ok r.
+  client_op o -> NoPanicC5.op_ok s o -> exists r, step s o = Ok r.
 Proof. exact client_requests_total_reachable. Qed.
 
 (** One step, from the invariants (the form the reachable one is built from). *)
@@ -73,3 +121,11 @@ Print Assumptions C09_close_total.
 Print Assumptions C09_forget_total.
 Print Assumptions C09_open_total.
 Print Assumptions C09_job_layer_invariant.
+Print Assumptions C09_no_reachable_panic.
+Print Assumptions C09_step_never_panics.
+Print Assumptions C09_protocol_invariant.
+Print Assumptions C09_worker_messages_never_panic.
+Print Assumptions C09_worker_process_never_panics.
+Print Assumptions C09_no_panic_hypotheses_satisfiable.
+Print Assumptions C09_f28_history_excluded.
+Print Assumptions C09_f28_panic_reachable_without_repair.
